@@ -106,95 +106,78 @@ namespace Navis.IoBatch
 
 /-! ### file selection -/
 
-theorem scanAW_sublist (hidden valid : String → Bool) (limit : Option Nat) (i : Nat) (l : List String) :
-    (scanAW hidden valid limit i l).Sublist l := by
-  induction l generalizing i with
+theorem scanAW_sublist (hidden valid : String → Bool) (limit : Option Nat) (c : Nat) (l : List String) :
+    (scanAW hidden valid limit c l).Sublist l := by
+  induction l generalizing c with
   | nil => simp [scanAW]
   | cons f fs ih =>
     unfold scanAW
-    by_cases hh : hidden f = true
-    · simp only [hh, if_true]
-      exact (ih (i + 1)).cons f
-    · simp only [hh]
-      have hhere : ∀ (t : List String), t.Sublist fs → ((if valid f = true then [f] else []) ++ t).Sublist (f :: fs) := by
-        intro t ht
+    by_cases hfull : full limit c = true
+    · simp only [hfull, if_true]; exact List.nil_sublist _
+    · simp only [hfull]
+      by_cases hh : hidden f = true
+      · simp only [hh, if_true]; exact (ih c).cons f
+      · simp only [hh]
         by_cases hv : valid f = true
-        · simp only [hv, if_true, List.singleton_append]; exact ht.cons_cons f
-        · simp only [hv]; exact ht.cons f
-      cases limit with
-      | none => exact hhere _ (ih (i + 1))
-      | some n =>
-        by_cases hi : i ≥ n
-        · simp only [hi, if_true]
-          have := hhere [] (List.nil_sublist fs)
-          simpa using this
-        · simp only [hi]
-          exact hhere _ (ih (i + 1))
+        · simp only [hv, if_true]; exact (ih (c + 1)).cons_cons f
+        · simp only [hv]; exact (ih c).cons f
 
-theorem scanAW_none (hidden valid : String → Bool) (i : Nat) (l : List String) :
-    scanAW hidden valid none i l = l.filter fun f => !hidden f && valid f := by
-  induction l generalizing i with
+theorem scanAW_none (hidden valid : String → Bool) (c : Nat) (l : List String) :
+    scanAW hidden valid none c l = l.filter fun f => !hidden f && valid f := by
+  induction l generalizing c with
   | nil => simp [scanAW]
   | cons f fs ih =>
     unfold scanAW
     by_cases hh : hidden f = true
-    · simp [hh, ih]
+    · simp [full, hh, ih]
     · have hh' : hidden f = false := by simpa using hh
       by_cases hv : valid f = true
-      · simp [hh', hv, ih]
+      · simp [full, hh', hv, ih]
       · have hv' : valid f = false := by simpa using hv
-        simp [hh', hv', ih]
+        simp [full, hh', hv', ih]
 
-theorem mem_scanAW_valid (hidden valid : String → Bool) (limit : Option Nat) (i : Nat) (l : List String) (f : String)
-    (hf : f ∈ scanAW hidden valid limit i l) : valid f = true ∧ hidden f = false := by
-  induction l generalizing i with
+theorem mem_scanAW_valid (hidden valid : String → Bool) (limit : Option Nat) (c : Nat) (l : List String) (f : String)
+    (hf : f ∈ scanAW hidden valid limit c l) : valid f = true ∧ hidden f = false := by
+  induction l generalizing c with
   | nil => simp [scanAW] at hf
   | cons g gs ih =>
     unfold scanAW at hf
-    by_cases hh : hidden g = true
-    · simp only [hh, if_true] at hf
-      exact ih _ hf
-    · have hh' : hidden g = false := by simpa using hh
-      simp only [hh] at hf
-      have key : ∀ t, f ∈ (if valid g = true then [g] else []) ++ t → (f ∈ t → valid f = true ∧ hidden f = false) →
-          valid f = true ∧ hidden f = false := by
-        intro t hm ht
-        rw [List.mem_append] at hm
-        rcases hm with hm | hm
-        · by_cases hv : valid g = true
-          · simp only [hv, if_true, List.mem_singleton] at hm
-            subst hm; exact ⟨hv, hh'⟩
-          · simp [hv] at hm
-        · exact ht hm
-      cases limit with
-      | none => exact key _ hf (ih _)
-      | some n =>
-        by_cases hi : i ≥ n
-        · simp only [hi, if_true] at hf
-          exact key [] (by simpa using hf) (by simp)
-        · simp only [hi] at hf
-          exact key _ hf (ih _)
+    by_cases hfull : full limit c = true
+    · simp [hfull] at hf
+    · simp only [hfull] at hf
+      by_cases hh : hidden g = true
+      · simp only [hh, if_true] at hf
+        exact ih _ hf
+      · have hh' : hidden g = false := by simpa using hh
+        simp only [hh] at hf
+        by_cases hv : valid g = true
+        · simp only [hv, if_true] at hf
+          rcases List.mem_cons.1 hf with h | h
+          · subst h; exact ⟨hv, hh'⟩
+          · exact ih _ h
+        · simp only [hv] at hf
+          exact ih _ hf
 
-/-- The off-by-one of the archive scan, exactly: with nothing hidden and every entry valid, an integer `limit = n`
-keeps the first `n + 1` entries. -/
-theorem scanAW_int_all_valid (hidden valid : String → Bool) (n i : Nat) (l : List String) (hi : i ≤ n)
-    (hall : ∀ f ∈ l, hidden f = false ∧ valid f = true) :
-    scanAW hidden valid (some n) i l = l.take (n + 1 - i) := by
-  induction l generalizing i with
+/-- The archive scan with an integer `limit = n`, exactly: the first `n - c` collectable entries (`c` already
+collected) – entries that are hidden or not valid neither count nor stop the scan. -/
+theorem scanAW_int (hidden valid : String → Bool) (n c : Nat) (l : List String) :
+    scanAW hidden valid (some n) c l = (l.filter fun f => !hidden f && valid f).take (n - c) := by
+  induction l generalizing c with
   | nil => simp [scanAW]
   | cons f fs ih =>
-    have hf := hall f (by simp)
     unfold scanAW
-    simp only [hf.1, hf.2, if_true, Bool.false_eq_true, if_false]
-    by_cases hge : i ≥ n
-    · have : i = n := Nat.le_antisymm hi hge
-      subst this
-      simp
-    · simp only [hge, if_false]
-      have hlt : i < n := Nat.lt_of_not_ge hge
-      rw [ih (i + 1) hlt (fun g hg => hall g (by simp [hg]))]
-      have : n + 1 - i = (n + 1 - (i + 1)) + 1 := by omega
-      rw [this, List.take_succ_cons]
-      simp
+    by_cases hge : c ≥ n
+    · have h0 : n - c = 0 := by omega
+      simp [full, hge, h0]
+    · have hfull : full (some n) c = false := by simp [full, hge]
+      simp only [hfull, Bool.false_eq_true, if_false]
+      by_cases hh : hidden f = true
+      · simp [hh, ih]
+      · have hh' : hidden f = false := by simpa using hh
+        by_cases hv : valid f = true
+        · have hs : n - c = (n - (c + 1)) + 1 := by omega
+          simp [hh', hv, ih, hs, List.take_succ_cons]
+        · have hv' : valid f = false := by simpa using hv
+          simp [hh', hv', ih]
 
 end Navis.IoBatch
